@@ -68,6 +68,7 @@ type Stuck struct {
 	Tag  int
 	Site string
 	Spin bool
+	Held int // locks the goroutine holds while it waits
 }
 
 // Sched is a token scheduler for one run.
@@ -371,7 +372,7 @@ func (s *Sched) abort(g *G, deadlock bool) {
 	s.Budget = !deadlock
 	for _, o := range s.gs {
 		if !o.Done {
-			s.StuckGs = append(s.StuckGs, Stuck{ID: o.ID, Tag: o.Tag, Site: o.Site, Spin: o.Spinning})
+			s.StuckGs = append(s.StuckGs, Stuck{ID: o.ID, Tag: o.Tag, Site: o.Site, Spin: o.Spinning, Held: o.Held})
 		}
 	}
 	runtime.Goexit() // -> exit(g) -> wakeMain
